@@ -205,6 +205,12 @@ def build(backend, tier):
         add(f"own-math-name-arith:{mn}", per.format(f"({mn}(j.eta()) + cos(j.pt()) * 0)"), [spec(mn, ["x"], ["double result = x * 8 + 3;"])], {mn: lambda v: v * 8 + 3, "cos": lambda v: 1.0})
     for mn in ("hypot", "pow", "fmod", "atan2", "fmax"):
         add(f"own-math-name:{mn}", per.format(f"{mn}(j.eta(), j.pt())"), [spec(mn, ["x", "y"], ["double result = x * 8 + y;"])], {mn: lambda u, v: u * 8 + v})
+    # ---- the function's include file next to an inject_code block that names the same file in another field
+    hmd = [spec("inj", ["pt", "eta"], fill(lines, "pt", "eta", "result"), includes=("tools/InjHelper.h",))]
+    for fld in ("header_includes", "body_includes"):
+        blk = {"metadata_type": "inject_code", "name": "incblk", fld: ["tools/InjHelper.h"]}
+        add(f"include-next-to-inject-block:{fld}", per.format("inj(j.eta(), j.pt())"), hmd + [blk], env, structural={"fn": "inj", "result": "result", "include": "tools/InjHelper.h"})
+    add("include-own-header", per.format("inj(j.eta(), j.pt())"), hmd, env, structural={"fn": "inj", "result": "result", "include": "tools/InjHelper.h"})
     f0 = [spec("seven", [], ["double result = 7;"])]
     add("fn0:column", per.format("(seven() + j.pt())"), f0, {"seven": lambda: 7})
     add("method:as-function", per.format("scaled(j, 2)"), mmd, {}, expect="refuse")
